@@ -205,6 +205,9 @@ def run(oc, tier, seed, model_available, escalate):
             i = new.find(eu.MARKER, i + len(eu.MARKER))
         intended = [bs if j < vi else bs + shift for j, (bs, be) in enumerate(bounds) if j != vi]
         extra = [o for o in occ if o not in intended and o != s]
+        # (and every other entry's marker must still be found where it is: the tail of a cut victim - some bytes of its own marker, say -
+        # can join the next marker into one that starts earlier; that is the same documented limit)
+        extra += [o for o in intended if o not in occ]
         if extra:
             oc.count("excluded: damage spelled an additional marker")
             continue
